@@ -119,6 +119,7 @@ def _collision_pairs():
 
 COLLISION_PAIRS = _collision_pairs()
 TEXTS = {**VALID, **INVALID, **LATE_FAIL}
+EXTRA_LATE = set()
 
 PANEL = [
     dict(uid=u, sid=s, plan=p, n=n)
@@ -199,7 +200,7 @@ class Lifecycle:
                 same_before = any(t[2] == name and t[3] is not None for t in trace[:-1])
                 mech = "C11/invalid-text-silent-on-repeat" if same_before else "C11/invalid-text-accepted"
                 return self.violate("invalid-text-accepted", mech, ops, trace, step, layer)
-            if name in LATE_FAIL:
+            if name in LATE_FAIL or name in EXTRA_LATE:
                 prev = self.accepts.setdefault(name, raised is None)
                 if prev != (raised is None):
                     return self.violate("inconsistent-acceptance", "C11/invalid-text-silent-on-repeat", ops, trace, step, layer)
@@ -312,7 +313,7 @@ def run(ctx):
     if ctx.shard in (0, 7) and not ctx.quick():  # (thorough tier only: each parse of it takes seconds)
         TEXTS["late_ladder"] = ("def exp { splitters: uid if n == 0 { return \"l0\" weighted 1 } "
                                 + " ".join(f'else if n == {i} {{ return "l{i}" weighted 1 }}' for i in range(1, 2600)) + " }")
-        LATE_FAIL["late_ladder"] = TEXTS["late_ladder"]
+        EXTRA_LATE.add("late_ladder")  # (not put into LATE_FAIL: the random histories must not draw a text that takes seconds per parse)
         lc.run_history([("new", 1, "A"), ("new", 0, "A_weights"), ("recompile", 0, "late_ladder"), ("recompile", 0, "late_ladder"),
                         ("recompile", 1, "late_ladder"), ("new", 2, "late_ladder"), ("recompile", 0, "late_ladder")], "deep-ladder")
     # copies taken at different moments of a recompile history
